@@ -21,12 +21,21 @@ RULE = ("source trees: (i) modules assembled from a catalogue of unusual but val
         "scopes in control flow, match, PEP 695 generics, decorators with calls, walrus, f-strings, lambda defaults ...) "
         "nested at random; (ii) line / token mutations of pydoctor's own sources, its test packages and stdlib modules "
         "(mostly unparsable or half-parsable files next to good ones); (iii) hostile string and docstring contents (NUL, "
-        "control characters, very long lines, odd escapes). Each tree is run through the real pydoctor.driver.main "
-        "in-process (worker pool, per-run alarm) under a random docformat; the oracle is the property itself: returns 0/2/3, "
+        "control characters, very long lines, odd escapes, twisted template directives smuggled in through markup, one token "
+        "repeated some hundred times); (iv) legal code nested a few hundred levels deep at one place (sizes drawn around the depth "
+        "at which the recursive walks give up) and chains of 20 - 170 modules importing one another; (v) tree shapes: a module "
+        "assigning the __doc__ of a module not analysed yet, a class moved by a re-export while its body is visited, module / "
+        "package FILE NAMES that are not UTF-8, hold control characters or URL / HTML syntax, or are at the file system's length "
+        "limit, names that make a page file name too long, directories / broken links / unreadable files where a source file is "
+        "expected; (vi) growth: one token repeated 200 / 400 / 800 times at one place of a docstring, the parser's CPU time "
+        "measured. Each tree is run through the real pydoctor.driver.main "
+        "in-process (worker pool, per-run alarm on CPU time) under a random docformat; the oracle is the property itself: returns 0/2/3, "
         "writes index/search/inventory, names every unparsable file, still documents the others. The module scheduler of the "
         "same runs is covered by the Schedule theorems and the C06 log correspondence. Non-trivial = tree contains a file that "
         "does not parse, a hostile string, or at least three catalogue constructs.")
-ASSUMPTIONS = ["a per-run alarm (60 s) stands in for 'never hangs'",
+ASSUMPTIONS = ["'never hangs' is decided by a per-run alarm (60 s of CPU time, 300 s on the clock; every generated tree is below 200 KB and "
+               "ordinary runs take well under 5 s) and, for one token repeated at one place of a docstring, by the measured growth of the "
+               "parser's CPU time over two doublings (exponent >= 2.5 and >= 1 s at 800 repeats = cubic or worse)",
                "lone surrogates in source strings are exercised in a separate stream (Lean's Char cannot represent them)"]
 PARTIAL = {"C01 totality of all of pydoctor": "the theorems carry the scheduler, the exit status and (C08) the docstring "
            "fallback wrappers; that no construct makes any other code path raise is decided by the end-to-end oracle only"}
@@ -120,10 +129,6 @@ CONSTRUCTS = [
     "class {N}(Generic[0x" + "f" * 4000 + "], metaclass=M(0x" + "f" * 4000 + ")): pass\n",
     "@d(0x" + "f" * 4000 + ")\ndef {n}(a=0x" + "f" * 4000 + ", *, b: Literal[0x" + "f" * 4000 + "] = 0o" + "7" * 5000 + "): pass\n",
     "{N} = 0x" + "f" * 4000 + "\n{n}: Literal[0b" + "1" * 16000 + "] = " + "9" * 4300 + "\n__all__ = [0x" + "f" * 4000 + "]\n",
-    # names that make a page file name longer than the 255 bytes a file system allows
-    "class " + "K" * 250 + ":\n    'doc'\n    def m(self): pass\n",
-    "".join("    " * i + "class Level%02dOfTheNesting:\n" % i for i in range(14)) + "    " * 14 + "'doc'\n",
-    "def " + "f" * 300 + "(" + "a" * 300 + "): pass\n" + "V" * 300 + " = 1\n'doc'\n",
 ]
 
 
@@ -171,7 +176,7 @@ def deep_source(rng: random.Random, n: Optional[int] = None) -> str:
 def import_chain(rng: random.Random, root: str, n: Optional[int] = None) -> Dict[str, str]:
     """modules that import one another in a chain: each is analysed on demand INSIDE the analysis of the previous one"""
     if n is None:
-        n = rng.choice([rng.randint(95, 130)] * 3 + [rng.randint(20, 95), rng.randint(130, 260)])
+        n = rng.choice([rng.randint(95, 130)] * 3 + [rng.randint(20, 95), rng.randint(130, 170)])    # (a run costs ~ n^2: the sidebar)
     form = rng.randrange(3)
     body = rng.choice(["", "def g(a: int = 1, *b: str, **c) -> 'List[int]':\n    '''doc'''\n",
                        "class K(Base):\n    '''doc'''\n    x: int = 1\n    def m(self, a=(1, 2)) -> None: pass\n"])
@@ -188,6 +193,13 @@ def import_chain(rng: random.Random, root: str, n: Optional[int] = None) -> Dict
 ODD_NAMES = ["caf\udce9", "\udcff\udcfe", "a\nb", "a\rb", "a b", "a'b", 'a"b', "a<b>", "a&b", "a%41", "a#b", "a?b", "-x", "a.b", "a..b", ".hidden",
              "\u00e9", "a\tb", "a\\b", "a:b", "a*b", "class", "None", "1", " ", "a\x01b", "a\x7fb", "\u202e", "a;b", "a`b", "a{b}", "__init__.x",
              "index", "a\u2028b", "a\x0cb", "a\x85b", "m" * 249, "\u00e9" * 120, "A" * 128 + "b" * 121, "\U0001f600"]
+# names that make a page file name longer than the 255 bytes a file system allows
+LONG_NAMES = [
+    "class " + "K" * 250 + ":\n    'doc'\n    def m(self): pass\n",
+    "".join("    " * i + "class Level%02dOfTheNesting:\n" % i for i in range(14)) + "    " * 14 + "'doc'\n",
+    "def " + "f" * 300 + "(" + "a" * 300 + "): pass\n" + "V" * 300 + " = 1\n'doc'\n",
+    "class " + "\u00e9" * 126 + ":\n    'doc: 252 bytes in UTF-8, 126 characters'\n",
+]
 ODD_BODY = "class K:\n    'doc'\n    def m(self): pass\nX = 1\n'''doc'''\ndef f(): pass\n"
 
 _T_NS = 'xmlns:t=\\"http://twistedmatrix.com/ns/twisted.web.template/0.1\\"'
@@ -205,6 +217,10 @@ HOSTILE = [
     "\\nParameters\\n----------\\nx : " + "`a <" * 250 + "\\n    d\\n", "\\nArgs:\\n    x (" + "`a <" * 250 + "): d\\n", "\\nArgs:\\n    x " + "(" * 300 + ": d\\n",
     "\\nReturns\\n-------\\n" + "`a <" * 250 + "\\n    d\\n", "L{" * 300, "`a`_ " * 200, "(" * 400, "[" * 400 + "]" * 400, "C{" * 150 + "}" * 150, "*a " * 300, "|a" * 300,
 ]
+
+
+HOSTILE_T = ["M{\\\\text{" + _T_RENDER + "}}", "M{\\\\text{" + _T_SLOT + "}}", ":math:`\\\\text{" + _T_RENDER + "}`",
+             "\\n.. math::\\n\\n   \\\\text{" + _T_SLOT + "}\\n", "\\n.. raw:: html\\n\\n   " + _T_RENDER + "\\n"]
 
 
 def hostile_module(rng: random.Random) -> str:
@@ -385,6 +401,8 @@ def make_tree(rng: random.Random) -> Dict[str, Any]:
                                    "    class Inner:\n        def m(self): pass\n    x: int = 1\n"
                                    % (deco, rng.choice(["from pkg.api import describe", "import pkg.api", "from .api import *"]), deco))
         files["pkg/api.py"] = "from pkg._shapes import Shape\n__all__ = ['Shape', 'describe']\ndef describe(obj): ...\n"
+    if rng.random() < 0.03:
+        files[root + "/longname.py"] = rng.choice(LONG_NAMES)
     if rng.random() < 0.06:
         # module / package names that are unusual as file names
         nm = rng.choice(ODD_NAMES)
@@ -463,8 +481,9 @@ GROWTH_PLACES = [
     ("epytext", "constant", None),        # X = re.compile('<token>*k') / X = '<token>*k' : the colouriser
     ("epytext", "annotation-string", None),
 ]
-GROWTH_SIZES = (150, 300, 600)
-GROWTH_KNOWN = [("numpy", "param-type", "`a <"), ("google", "arg-type", "`a <"), ("google", "arg-name", "("), ("numpy", "returns", "`a <")]
+GROWTH_SIZES = (200, 400, 800)
+GROWTH_KNOWN = [("numpy", "param-type", "`a <"), ("google", "arg-type", "`a <"), ("google", "arg-name", "("), ("numpy", "returns", "`a <"),
+                ("google", "raises", "`a <")]
 
 
 def growth_tree(fmt: str, place: str, token: str, k: int) -> Dict[str, Any]:
@@ -481,17 +500,48 @@ def growth_tree(fmt: str, place: str, token: str, k: int) -> Dict[str, Any]:
 
 
 def run_growth(case: Tuple[str, str, str]) -> Dict[str, Any]:
-    """worker: the same tree at sizes 0, 0 (warm-up, base line), k, 2k, 4k in ONE process; CPU seconds of driver.main each"""
+    """worker: CPU seconds (process_time: a loaded machine does not matter) at sizes 0, 0 (warm-up, base line), k, 2k, 4k
+    in ONE process.  Docstring places: the real docstring parser of the docformat on the docstring alone — the run costs
+    at least that (the rest of a run adds a large LINEAR term, one docutils call per token, which would hide the cubic one
+    at sizes that are affordable here) — plus one real driver.main run at size k for crashes; code places: driver.main."""
+    import time as _time
     fmt, place, token = case
     cpu: List[float] = []
     outs: List[str] = []
-    for k in (0, 0) + GROWTH_SIZES:
-        r = run_tree(growth_tree(fmt, place, token, k))
-        cpu.append(float(r.get("cpu") or 0.0))
-        outs.append(str(r["outcome"]))
+    r: Dict[str, Any] = {}
+    direct = place not in ("constant", "annotation-string")
+    if direct:
+        r = run_tree(growth_tree(fmt, place, token, GROWTH_SIZES[0]))
         if not str(r["outcome"]).startswith("exit"):
+            return {"cpu": [], "outcomes": [str(r["outcome"])], "detail": r.get("detail", ""), "tail": r.get("tail", ""), "at": GROWTH_SIZES[0]}
+        from pydoctor.epydoc.markup import get_parser_by_name
+        tpl = next(t for f, p, t in GROWTH_PLACES if f == fmt and p == place)
+        parser = get_parser_by_name(fmt, None)
+    for k in (0, 0) + GROWTH_SIZES:
+        if direct:
+            doc = tpl % (token * k)
+            signal.signal(signal.SIGALRM, _alarm)
+            signal.alarm(120)
+            t0 = _time.process_time()
+            try:
+                parser(doc, [])
+                outs.append("exit:parsed")
+            except _Timeout as e:
+                outs.append("hang:" + str(e))
+            except Exception as e:     # a parser may refuse a docstring (parse_docstring falls back to plain text)
+                outs.append("exit:raised:" + type(e).__name__)
+            finally:
+                signal.alarm(0)
+            cpu.append(_time.process_time() - t0)
+        else:
+            r = run_tree(growth_tree(fmt, place, token, k))
+            cpu.append(float(r.get("cpu") or 0.0))
+            outs.append(str(r["outcome"]))
+        if not outs[-1].startswith("exit"):
+            return {"cpu": cpu, "outcomes": outs, "detail": r.get("detail", ""), "tail": r.get("tail", ""), "at": k}
+        if cpu[-1] > 25.0:
             break
-    return {"cpu": cpu, "outcomes": outs, "detail": r.get("detail", ""), "tail": r.get("tail", "")}
+    return {"cpu": cpu, "outcomes": outs, "detail": r.get("detail", ""), "tail": r.get("tail", ""), "at": k}
 
 
 def judge_growth(ctx: Ctx, case: Tuple[str, str, str], r: Dict[str, Any]) -> None:
@@ -499,23 +549,28 @@ def judge_growth(ctx: Ctx, case: Tuple[str, str, str], r: Dict[str, Any]) -> Non
     fmt, place, token = case
     inp = {"growth": list(case), "sizes": list(GROWTH_SIZES), "files": growth_tree(fmt, place, token, GROWTH_SIZES[0])["files"], "docformat": fmt}
     last = r["outcomes"][-1]
+    ctx.count("growth-cases")
     if not last.startswith("exit"):
         if last.startswith("hang"):
-            ctx.fail("hang:%s:%s" % (fmt, place), inp, f"token {token!r} x {GROWTH_SIZES[len(r['outcomes']) - 3] if len(r['outcomes']) > 2 else 0}: the 60 s alarm went off ({last})")
+            ctx.fail("hang:%s:token=%s" % (fmt, token), inp, f"{place}: token {token!r} x {r.get('at')}: the alarm went off ({last})")
         elif last.startswith("harness"):
             ctx.count("harness-trouble")
         else:
+            inp["files"] = growth_tree(fmt, place, token, int(r.get("at") or GROWTH_SIZES[0]))["files"]
             ctx.fail(last if not last.startswith("SystemExit") else "aborts:" + last, inp, f"driver.main: {last} {r.get('detail', '')} | {r.get('tail', '')[-200:]}")
         return
+    if len(r["cpu"]) < 4:
+        return
     base = r["cpu"][1]
-    net = [max(t - base, 0.005) for t in r["cpu"][2:]]
-    expo = math.log2(net[2] / net[1])
-    ctx.count("growth-cases")
-    if net[2] >= 1.0 and expo >= 2.5:
-        # cubic or worse: extrapolated, a docstring of 4*k*8 tokens (some tens of KB) takes net[2] * 512 seconds
-        ctx.fail("hang:superlinear:%s:%s" % (fmt, place), inp,
-                 f"{fmt} docstring, {place}: token {token!r} repeated {GROWTH_SIZES} times costs {net[0]:.2f} / {net[1]:.2f} / {net[2]:.2f} CPU s "
-                 f"(exponent {expo:.1f} for the last doubling): cubic or worse, {GROWTH_SIZES[2] * 4} repeats take minutes")
+    net = [max(t - base, 0.002) for t in r["cpu"][2:]]
+    expo = math.log2(net[-1] / net[-2])
+    if net[-1] >= 1.0 and expo >= 2.5:
+        k = GROWTH_SIZES[len(net) - 1]
+        ctx.count("growth-superlinear")
+        ctx.fail("hang:superlinear:%s:token=%s" % (fmt, token), inp,
+                 f"{fmt} docstring, {place}: token {token!r} repeated {GROWTH_SIZES[:len(net)]} times costs " + " / ".join("%.2f" % x for x in net) +
+                 f" CPU s in the docstring parser alone (exponent {expo:.1f} over the last doubling): cubic or worse — {k * 4} repeats "
+                 f"(a docstring of {len(token) * k * 4} characters) take about {net[-1] * 64:.0f} s")
 
 
 def run_tree(tree: Dict[str, Any]) -> Dict[str, Any]:
@@ -540,8 +595,8 @@ def run_tree(tree: Dict[str, Any]) -> Dict[str, Any]:
                 continue
             if src.startswith("#SYMLINK:"):
                 os.symlink(src[9:], p)
-                if not p.is_file():
-                    bad.append(rel)
+                if not p.is_file() and p.name != "__init__.py":
+                    bad.append(rel)      # (a directory whose __init__.py does not exist is not a package: nothing to report)
                 continue
             mode = None
             if src.startswith("#MODE000:"):
@@ -578,8 +633,12 @@ def run_tree(tree: Dict[str, Any]) -> Dict[str, Any]:
         if tree.get("prepend"):
             args[0:0] = ["--prepend-package", "fake.pack"]
         buf = io.StringIO()
+        # a hang: 60 s of CPU time of this process (a loaded machine does not turn a slow run into a "hang"), or 300 s on
+        # the clock (a run that waits for something)
         signal.signal(signal.SIGALRM, _alarm)
-        signal.alarm(60)
+        signal.signal(signal.SIGVTALRM, _alarm)
+        signal.alarm(300)
+        signal.setitimer(signal.ITIMER_VIRTUAL, 60)
         import time as _time
         t0 = None
         try:
@@ -602,10 +661,15 @@ def run_tree(tree: Dict[str, Any]) -> Dict[str, Any]:
             if isinstance(root, _Timeout):      # the alarm went off inside the flattener
                 res["outcome"] = "hang" + (":" + str(root) if str(root) else "")
             else:
-                res["outcome"] = "crash:%s:%s%s" % (type(root).__name__, where(e), where_root(root) if root is not e else "")
+                import errno as _errno
+                cls = type(root).__name__
+                if cls == "OSError" and getattr(root, "errno", None):
+                    cls += "[%s]" % _errno.errorcode.get(root.errno, root.errno)     # ENAMETOOLONG, ELOOP ...
+                res["outcome"] = "crash:%s:%s%s" % (cls, where(e), where_root(root) if root is not e else "")
                 res["detail"] = (str(root) or "")[:300]
         finally:
             signal.alarm(0)
+            signal.setitimer(signal.ITIMER_VIRTUAL, 0)
             if t0 is not None:
                 res["cpu"] = _time.process_time() - t0
         text = buf.getvalue()
@@ -716,17 +780,16 @@ def where(e: BaseException) -> str:
 
 
 def where_root(root: BaseException) -> str:
-    """for an exception that twisted's flattener wrapped: which pydoctor function it came from — ':file.function' of the
-    innermost pydoctor frame of the ROOT traceback, for a RecursionError the pydoctor function that recurses (the most
-    frequent frame; the innermost one depends on where exactly the limit is hit); '' when no pydoctor frame is in it"""
+    """for an exception that twisted's flattener wrapped: which pydoctor code it came from — ':file.function' of the
+    innermost pydoctor frame of the ROOT traceback; for a RecursionError ':file' of the pydoctor module that recurses (the
+    module most of the frames are in: which function meets the limit is an accident); '' when no pydoctor frame is in it"""
     tb = traceback.extract_tb(root.__traceback__)
     frames = [f for f in tb if "/pydoctor/" in f.filename and "/verif/" not in f.filename]
     if not frames:
         return ""
     if isinstance(root, RecursionError):
         from collections import Counter
-        (fn, name), _n = Counter((Path(f.filename).stem, f.name) for f in frames).most_common(1)[0]
-        return ":%s.%s" % (fn, name)
+        return ":" + Counter(Path(f.filename).stem for f in frames).most_common(1)[0][0]
     return ":%s.%s" % (Path(frames[-1].filename).stem, frames[-1].name)
 
 
@@ -794,6 +857,56 @@ def corpus_trees() -> List[Dict[str, Any]]:
     # undecodable bytes after the first two lines; a cookie that lies
     tree({"pkg/__init__.py": "", "pkg/good.py": GOOD, "pkg/enc.py": "#HEX:" + b"'doc'\nimport os\nX = 'caf\xe9'\n".hex()})
     tree({"pkg/__init__.py": "", "pkg/good.py": GOOD, "pkg/enc.py": "#HEX:" + "# coding: ascii\nX = 'café'\n".encode("utf-8").hex()})
+    # ---- hunter round (2026-09-28) ----
+    base = {"pkg/__init__.py": "'pkg'\n", "pkg/good.py": GOOD}
+
+    def mod(src, name="pkg/m.py", **kw):
+        d = dict(base)
+        d[name] = src
+        tree(d, **kw)
+    # 1297c95: string annotations the parser refuses with ValueError / MemoryError / RecursionError (the catalogue entries)
+    for c in CONSTRUCTS:
+        if "ud800" in c or "-" * 10000 in c or "int | int | int" in c:
+            mod(c.format(n="f0", N="C0"))
+    # 81bb177: __doc__ of a module that has not been analysed yet
+    tree({**base, "pkg/a.py": "import pkg.b\npkg.b.__doc__ = 'Documentation of b, provided by a.'\n", "pkg/b.py": "def helper(): ...\n"})
+    # 747aa07: a class moved by a re-export while its body is visited, @overload before and after
+    tree({**base, "pkg/_shapes.py": "from typing import overload\nclass Shape:\n    @overload\n    def scale(self, factor: int) -> 'Shape': ...\n"
+          "    from pkg.api import describe\n    @overload\n    def scale(self, factor: float) -> 'Shape': ...\n    def scale(self, factor): return self\n",
+          "pkg/api.py": "from pkg._shapes import Shape\n__all__ = ['Shape', 'describe']\ndef describe(obj): ...\n"})
+    # e584e35: legal code nested deeper than the recursive walks can follow; a long chain of imports
+    mod("TOTAL = " + " + ".join(["1"] * 400) + "\n")
+    mod("x = a" + ".b" * 400 + "\n")
+    mod("def f(x):\n    if x == 0:\n        return 0\n" + "".join("    elif x == %d:\n        return %d\n" % (i, i) for i in range(1, 400)))
+    tree({**base, **import_chain(random.Random(0), "pkg", 130)})
+    # ... and the band around the threshold, where the analysis just goes through and the recursion limit is met later
+    # (rendering: the colouriser) or in the middle of a definition
+    for n in range(306, 336):
+        s_plus, s_or = " + ".join(["1"] * n), " | ".join(["int"] * n)
+        mod("X = %s\n" % s_plus)
+        mod("x: %s = 1\n" % s_or)
+        mod("def f(a) -> %s: pass\n" % s_or)
+        mod("class C(d(%s)): pass\n" % s_plus)
+    mod("import re\nR = re.compile('%s')\nS = re.compile('%s')\n" % ("(" * 600, "(a, " * 600))
+    # page file names beyond 255 bytes
+    mod("class %s:\n    'doc'\n" % ("K" * 250))
+    mod("".join("    " * i + "class Level%02dOfTheNesting:\n" % i for i in range(14)) + "    " * 14 + "'doc'\n")
+    mod("x = 1\n", name="pkg/%s.py" % ("m" * 249))
+    # file names: not UTF-8, a newline
+    mod(ODD_BODY, name="pkg/caf\udce9.py")
+    mod(ODD_BODY, name="pkg/caf\udce9/__init__.py")
+    mod(ODD_BODY, name="pkg/a\nb.py")
+    # an integer literal beyond the str() limit inside a base-class expression
+    mod("class C(f(0x" + "f" * 4000 + ")): pass\n")
+    # not a readable regular file where a source file is expected
+    tree({**base, "pkg/sub/__init__.py": "#DIR", "pkg/sub/m.py": "x = 1\n"})
+    tree({**base, "pkg/loop.py": "#SYMLINK:loop.py"})
+    tree({**base, "pkg/dangling.py": "#SYMLINK:nosuch.py"})
+    tree({**base, "pkg/unreadable.py": "#MODE000:x = 1\n"})
+    # twisted template directives smuggled in through markup
+    for h, fmt in ((HOSTILE_T[0], "epytext"), (HOSTILE_T[1], "epytext"), (HOSTILE_T[2], "restructuredtext"), (HOSTILE_T[3], "restructuredtext"),
+                   (HOSTILE_T[4], "restructuredtext")):
+        mod("def f():\n    '''%s'''\n" % h, docformat=fmt)
     return trees
 
 
@@ -830,10 +943,32 @@ def run(ctx: Ctx) -> None:
             ctx.count("option:prepend-package")
         if t.get("extra_roots"):
             ctx.count("two-roots:root-module-reexported")
+        for k, v in t["files"].items():
+            if v == "#DIR" or v.startswith("#SYMLINK:") or v.startswith("#MODE000:"):
+                ctx.count("shape:not-a-readable-file")
+            elif k.endswith("/massign.py"):
+                ctx.count("shape:module-doc-assigned")
+            elif k.endswith("/_shapes.py"):
+                ctx.count("shape:class-moved-while-visited")
+            elif k.endswith("/ch000.py"):
+                ctx.count("shape:import-chain")
+            elif k.endswith("/longname.py"):
+                ctx.count("shape:long-names")
+            elif any(ord(c) > 0xdc00 and ord(c) < 0xdd00 for c in k) or "\n" in k:
+                ctx.count("shape:odd-file-name:undecodable-or-newline")
         ctx.count("docformat:" + t["docformat"])
         ctx.count("outcome:" + str(r["outcome"]).split(":")[0] + (":" + str(r["outcome"]).split(":")[1] if str(r["outcome"]).startswith("exit") else ""))
         ctx.count("unparsable-files", len(r.get("bad") or []))
         judge(ctx, t, r)
+    # growth stream: one token many times at one place — the known cubic places first, then random (place, token) pairs
+    gcases = list(GROWTH_KNOWN)
+    allg = [(f, p, t) for f, p, _ in GROWTH_PLACES for t in GROWTH_TOKENS if (f, p, t) not in gcases]
+    gcases += ctx.rng.sample(allg, 10 if ctx.quick else 120)
+    with mp.get_context("fork").Pool(min(16, os.cpu_count() or 4)) as pool:
+        gres = pool.map(run_growth, gcases, chunksize=1)
+    for gc, gr in zip(gcases, gres):
+        ctx.case("growth " + repr(gc), True, None)
+        judge_growth(ctx, gc, gr)
     # real-world packages as they are on disk
     jobs = []
     for k, (label, paths) in enumerate(real_corpus(ctx.quick)):
